@@ -432,7 +432,7 @@ func RunC11Random(c *core.Ctx, idx int) {
 	t, want := d.collection(depth, 0)
 	t += strings.Repeat("\n", []int{0, 1, 1, 2, 3}[r.Intn(5)])
 	cs := map[string]any{"sentence": clip(t, 1200), "tokens": d.tokens}
-	if !CheckSentence(c, t, want, core.Tiered(c.Tier, 4, 32), cs) {
+	if !CheckSentence(c, t, want, core.Tiered(c.Tier, 4, 12), cs) {
 		return
 	}
 	if d.tokens > 16 {
